@@ -45,29 +45,46 @@ def tofile_chunks(tier='quick', seed=0):
     interp.contracts = {}          # run the real bodies (no modular substitution) in this concrete run
     fn = interp.lookup_qualname('bits.Bits.tofile')
     obs = []
-    # 1. the literal chunk size
-    assign = next((n for n in ast.walk(fn.node) if isinstance(n, ast.Assign) and isinstance(n.targets[0], ast.Name) and n.targets[0].id == 'chunk_size'), None)
-    ok = False
+    # 1. the chunk size: located structurally -- the first argument of the `.cut(...)` call that drives the write loop, followed
+    #    through one local assignment -- so that renaming the local or inlining the constant does not matter.  An implementation
+    #    without such a call has no chunk constant: the obligation does not arise (the native read/write checks still run).
+    def _locate(fnode):
+        cut = next((n for n in ast.walk(fnode) if isinstance(n, ast.Call) and isinstance(n.func, ast.Attribute) and n.func.attr == 'cut' and n.args), None)
+        if cut is None:
+            return None, None
+        arg = cut.args[0]
+        if isinstance(arg, ast.Name):
+            asg = next((n for n in ast.walk(fnode) if isinstance(n, ast.Assign) and len(n.targets) == 1 and isinstance(n.targets[0], ast.Name)
+                        and n.targets[0].id == arg.id), None)
+            return ('assign', asg) if asg is not None else (None, None)
+        return 'arg', cut
+    where, holder = _locate(fn.node)
     val = None
-    if assign is not None:
+    if where is not None:
+        expr = holder.value if where == 'assign' else holder.args[0]
         try:
-            val = eval(compile(ast.Expression(assign.value), '<chunk_size>', 'eval'), {})
+            val = eval(compile(ast.Expression(expr), '<chunk size>', 'eval'), {})
             ok = isinstance(val, int) and val > 0 and val % 8 == 0
         except Exception:
-            ok = False
-    obs.append(_ob('C17/bits.Bits.tofile/chunk-size-is-a-positive-multiple-of-8/constant', ok,
-                   None if ok else {'inputs': {'chunk_size': repr(val)}, 'reproduced': False,
-                                    'python': "FAILS = False  # needs > 100 MiB of data to show natively; see the interpreted run below"}))
+            ok = None                      # not a constant expression: nothing to decide statically
+        if ok is not None:
+            obs.append(_ob('C17/bits.Bits.tofile/chunk-size-is-a-positive-multiple-of-8/constant', ok,
+                           None if ok else {'inputs': {'chunk_size': repr(val)}, 'reproduced': False,
+                                            'python': "FAILS = False  # needs > 100 MiB of data to show natively; see the interpreted run below"}))
     # 2. the real loop with small chunk sizes
     rng = random.Random(seed)
     fails = []
     evals = 0
     Bits = interp.get_module('bitstring').ns['Bits']
     for k in (8, 16, 24, 64):
+        if where is None:
+            break
         node = copy.deepcopy(fn.node)
-        for n in ast.walk(node):
-            if isinstance(n, ast.Assign) and isinstance(n.targets[0], ast.Name) and n.targets[0].id == 'chunk_size':
-                n.value = ast.Constant(k)
+        w2, h2 = _locate(node)
+        if w2 == 'assign':
+            h2.value = ast.Constant(k)
+        else:
+            h2.args[0] = ast.Constant(k)
         ast.fix_missing_locations(node)
         f2 = FuncVal(node, fn.module, fn.closure, fn.defaults, fn.kwdefaults, fn.qualname + f'@chunk{k}', owner=fn.owner)
         for nbits in list(range(0, 3 * k + 10)) if tier == 'thorough' or k <= 24 else [0, 1, k - 1, k, k + 1, 2 * k, 2 * k + 3, 3 * k + 7]:
